@@ -75,7 +75,7 @@ impl SendChannelReliable {
 //@specfile contracts/shared/SendChannelReliable.process_slice_message_ack.spec
 //@entry
         proof { broadcast use send_rel_lemmas::lemma_send_accounted_ext; }
-//@before /return;/ 2
+//@beforeopt /return;/ 2
             proof {
                 assert(old(self).unacked_messages@.insert(message_id, old(self).unacked_messages@[message_id]) =~= old(self).unacked_messages@);
             }
